@@ -858,3 +858,79 @@ Module LegacyWitness.
     vm_compute. discriminate.
   Qed.
 End LegacyWitness.
+
+(* ---------------------------------------------------------------------------------------------------- *)
+(* C05: composition - shard count and worker schedule do not influence what a simple tracker reports      *)
+Section PredictProofs.
+  Variable track : Type.
+  Variable OBS : Type.
+  Variable MV : Type.
+  Variable tid : track -> N.
+  Variable compatible : track -> track -> bool.
+  Variable baked : track -> status.
+  Variable observations : track -> N -> option (list OBS).
+  Variable metric : N -> track -> OBS -> track -> OBS -> option MV.
+  Variable postprocess : track -> list (res MV) -> list (res MV).
+  Variable cls : N.
+  Variable ob : bool.
+  Variable TS : Type.
+  Variable IN : Type.
+  Variable OUT : Type.
+  Variable W : Type.
+  Variable store_of : TS -> list track.
+  Variable cands_of : TS -> IN -> TS * list track.
+  Variable winners : list (res MV) -> W.
+  Variable commit : TS -> list track -> W -> TS * OUT.
+  Variable tie_free : list (res MV) -> Prop.
+
+  (* proved about the voting models elsewhere (C17 / C02: sort_voting_perm_invariant, visual_voting_perm_invariant):
+     on a stream without exact ties the winners do not depend on the order of the stream *)
+  Hypothesis winners_perm_invariant :
+    forall s1 s2, Permutation s1 s2 -> tie_free s1 -> winners s1 = winners s2.
+
+  Notation PREDICT := (predict_rel track OBS MV tid compatible baked observations metric postprocess cls ob
+                                   TS IN OUT W store_of cands_of winners commit).
+  Notation HISTORY := (history_rel track OBS MV tid compatible baked observations metric postprocess cls ob
+                                   TS IN OUT W store_of cands_of winners commit).
+  Notation TFCALL := (tie_free_call track OBS MV tid compatible baked observations metric postprocess cls ob
+                                    TS IN store_of cands_of tie_free).
+  Notation TFHIST := (tie_free_history track OBS MV tid compatible baked observations metric postprocess cls ob
+                                       TS IN OUT W store_of cands_of winners commit tie_free).
+
+  Lemma predict_winners n ts inp sigma st :
+    0 < n ->
+    drun track OBS MV tid compatible baked observations metric postprocess cls ob
+         (foreign_init track MV (distribute track tid n (store_of (fst (cands_of ts inp)))) (snd (cands_of ts inp))) sigma = Some st ->
+    dfinal track MV st = true -> TFCALL ts inp ->
+    winners (concat (got_ok st)) =
+    winners (ok_spec track OBS MV tid compatible baked observations metric postprocess
+                     (store_of (fst (cands_of ts inp))) (snd (cands_of ts inp)) cls ob).
+  Proof.
+    intros Hn H F T. symmetry. apply winners_perm_invariant; [|exact T].
+    destruct (foreign_query_exact_lemma _ _ _ _ _ _ _ _ _ _ _ _ _ _ _ H F) as (P & _ & _).
+    rewrite P. symmetry.
+    apply (spec_perm_store track OBS MV tid compatible baked observations metric postprocess cls ob).
+    now apply concat_distribute.
+  Qed.
+
+  Lemma predict_independent_lemma n1 n2 ts inp t1 o1 t2 o2 :
+    0 < n1 -> 0 < n2 -> TFCALL ts inp ->
+    PREDICT n1 ts inp t1 o1 -> PREDICT n2 ts inp t2 o2 -> t1 = t2 /\ o1 = o2.
+  Proof.
+    intros H1 H2 T P1 P2. destruct P1 as [s1 st1 R1 F1]. destruct P2 as [s2 st2 R2 F2].
+    rewrite (predict_winners n1 ts inp s1 st1 H1 R1 F1 T), (predict_winners n2 ts inp s2 st2 H2 R2 F2 T). auto.
+  Qed.
+
+  Lemma history_independent_lemma n1 n2 ins : forall ts t1 os1 t2 os2,
+    0 < n1 -> 0 < n2 -> TFHIST n1 ts ins ->
+    HISTORY n1 ts ins t1 os1 -> HISTORY n2 ts ins t2 os2 -> t1 = t2 /\ os1 = os2.
+  Proof.
+    induction ins as [|inp ins IH]; intros ts t1 os1 t2 os2 H1 H2 T R1 R2.
+    - inversion R1; inversion R2; subst. auto.
+    - inversion R1 as [|? ? ? ts1 o1 ? os1' P1 R1']; subst.
+      inversion R2 as [|? ? ? ts1' o2 ? os2' P2 R2']; subst.
+      inversion T as [|? ? ? Tc Tn]; subst.
+      destruct (predict_independent_lemma n1 n2 ts inp ts1 o1 ts1' o2 H1 H2 Tc P1 P2) as (<- & <-).
+      destruct (IH ts1 t1 os1' t2 os2' H1 H2 (Tn _ _ P1) R1' R2') as (<- & <-). auto.
+  Qed.
+End PredictProofs.
